@@ -7,6 +7,9 @@ package jen
 
 import (
 	"go/constant"
+	"go/format"
+	"os"
+	"path/filepath"
 	"go/scanner"
 	gotoken "go/token"
 	"go/types"
@@ -168,3 +171,43 @@ func specComplex64ConstIs(expr string, v complex64) bool {
 	im, _ := constant.Float32Val(constant.Imag(c))
 	return re == real(v) && im == imag(v)
 }
+
+// specGofmt / specGofmtOK: go/format.Source (uninterpreted gofmt / gofmt_ok symbolically).
+func specGofmt(src string) string {
+	b, err := format.Source([]byte(src))
+	if err != nil {
+		return ""
+	}
+	return string(b)
+}
+
+func specGofmtOK(src string) bool {
+	_, err := format.Source([]byte(src))
+	return err == nil
+}
+
+var verifTempDir string
+
+// verifTempFile: natively a fresh temp file pre-filled with "OLD"; symbolically a free string.
+func verifTempFile(name string) string {
+	if verifTempDir == "" {
+		d, err := os.MkdirTemp("", "verif-save-")
+		if err != nil {
+			panic(err)
+		}
+		verifTempDir = d
+	}
+	p := filepath.Join(verifTempDir, "target.go")
+	os.WriteFile(p, []byte("OLD"), 0644)
+	return p
+}
+
+func verifReadTempFile(p string) (string, bool) {
+	b, err := os.ReadFile(p)
+	if err != nil {
+		return "", false
+	}
+	return string(b), true
+}
+
+func verifEffectFailed(i int) bool { return false }
